@@ -42,6 +42,11 @@ CHECKS = {
          "Every history up to the depth bound of publish batches (duplicates within and across messages, same proposal with client named by ID or key address, stranger-signed and tampered signatures, foreign provider, unaffordable fee, non-controlling callers) and activation attempts (both entry points, wrong provider, expiring sector, wrong piece, repeated ids in and across sectors, unknown id, after start) with time steps is executed; returned ids must be fresh and sequential, exactly the model's entries accepted, activation accepted exactly when provider = caller, epoch <= start, sector outlives deal and not yet activated, and un-activated proposals past start are removed with the provider collateral burnt.",
          "mcvm stands in for the FVM; fake signatures bound to signer; the 'still pending after activation' corner is adopted from the implementation.",
          "DESIGN.md §3 C08"),
+ "C09": ("model_checking",
+         "explicit-state BFS over the real verifreg/datacap/market/multisig/miner actors with a token-ledger + allocation-table model in lock-step",
+         "From six base states (genesis, granted, two verifiers, allocated, published verified deal, claimed) every history up to the depth bound of verifier/client grants through the root multisig, direct DataCap transfers with allocation and extension requests (valid and malformed), market-mediated allocations, claim batches (repeated, foreign, mismatched, expired, all-or-nothing), expirations and removals, claim term extensions, datacap removal with two verifier signatures, third-party transfers/burns and time steps around expirations is executed; after every step all holder balances, supply = minted - burnt, verifier allowances, registry balance = sum of open allocations, the allocation and claim tables and TotalSupply/Balance probes must equal the ledger model, every allocation ends in exactly one of claimed/refunded.",
+         "mcvm stands in for the FVM; miner-side calls impersonated; claim-term rules and allocation policy limits are adopted from the implementation; far time jumps use one real tick then an epoch jump.",
+         "DESIGN.md §3 C09"),
  "C12": ("model_checking",
          "explicit-state BFS over the real multisig actor with a quorum reference model in lock-step",
          "Every interleaving up to the depth bound of propose/approve/cancel by three signers and an outsider (with no/right/wrong proposal hash), direct admin calls, self-administration transactions (add/remove/swap signer by ID and by key address, threshold, lock), re-entrant self Approve/Propose and time steps over the vesting lock is executed on the real actor from five base wallets; after every step accept/reject, the ordered list of sends leaving the wallet, signers, threshold, pending approvals, lock and balance must equal an independent quorum model that executes a transaction only with >= threshold distinct current signers, once, within the lock.",
@@ -52,6 +57,16 @@ CHECKS = {
          "Every interleaving up to the depth bound of ChangeOwnerAddress, ChangeWorkerAddress, ConfirmChangeWorkerAddress, ChangeBeneficiary (several term shapes) and WithdrawBalance issued by each of seven parties (owner, nominee owner, worker, new worker, control, beneficiary nominee, stranger) with epoch advances (real cron every epoch, which may apply a pending worker key) is executed; accept/reject of every call, owner/pending owner, worker/pending key and its effective epoch, control addresses, beneficiary, term and pending approvals must equal the protocol model after every step, withdrawals must pay exactly the allowed amount to the beneficiary, and after every step a control-level method is probed from all seven parties and must be accepted from exactly the model's controlling set.",
          "SMALL policy (worker-key delay 3 epochs); mcvm stands in for the FVM; a miner with one sector; beneficiary terms from a 2x2 alphabet.",
          "DESIGN.md §3 C13"),
+ "C14": ("model_checking",
+         "explicit-state BFS: (1) over the real vesting-table code of the miner State against a schedule model, (2) over reward/withdraw/beneficiary/penalty/time histories of a real miner",
+         "Layer 1 executes every sequence up to the depth bound of add-locked-funds (5 amounts), unlock-vested, penalty draws (5 targets) and time steps (1 epoch .. 181 days) at four proving-period offsets on the real State vesting methods; the table must equal a BTreeMap model of 'linear over 180 days in daily steps quantised to 12 h', exactly the vested amount unlocks, penalty draws take vested first then soonest-unvested up to the target, locked_funds = sum of table. Layer 2 executes histories of block rewards, withdrawals (4 callers x 4 amounts), beneficiary terms (small quota / early expiry), consensus-fault penalties and jumps to vesting boundaries (-1, exact, +1) on a real miner: amount withdrawn = min(requested, balance - vesting - deposits - pledge - debt, quota left), paid only to the beneficiary, only at the request of owner or beneficiary, no fee debt left, and unvested entries never change except by a penalty (soonest first) or a new 75% lock following the schedule.",
+         "mcvm stands in for the FVM; MAINNET policy with sparse ticking; amounts from small alphabets; only the first vesting days are walked at actor level.",
+         "DESIGN.md §3 C14"),
+ "C15": ("model_checking",
+         "explicit-state BFS (deviation-bounded, with injected failure of the reporter transfer) over the real miner with a recomputed penalty ledger",
+         "The miner-life walk (C02) for a rich miner and for a miner owning only its vesting creation deposit, extended with consensus-fault reports, disputes of bad proofs, debt repayment, withdrawals and block rewards carrying penalties; for every message and every cron tick the charged amount is recomputed (continued-fault fee for power already faulty, capped daily fee, FIP-0098 termination fee per early-terminated sector within [2% of pledge, cap], invalid-PoSt and consensus-fault penalties) and must equal burnt + paid to the reporter + change of fee debt; nothing may leave the burnt-funds account; withdrawals, recovery declarations and on-boarding must not succeed while fee debt stays unpaid.",
+         "SMALL policy; fee magnitudes use the reward/power estimates the implementation passed down; fault class F1 only on the reporter transfer.",
+         "DESIGN.md §3 C15"),
  "C16": ("model_checking",
          "explicit-state BFS over the real paych actor with a lane reference model in lock-step",
          "Every sequence up to the depth bound of vouchers from the declared grid (lane x nonce x amount x merges, plus one-field deviations: signer, submitter, time lock, secret, settle height, channel, signature), settle/collect by each party and time steps is executed on the real actor; after every step the decoded channel state must equal an independent lane model and collect payouts are checked from balance deltas.",
